@@ -25,7 +25,13 @@ RULE = ('constructor cases: Uniform/LogUniform(bounds | lin_bounds)/Gaussian/Log
         'step; input-file route: a real ForwardModel with 2-4 declared parameters, a [Fitting] section giving some of them '
         'prior text / bounds / mode / factor with fit = True, False or no fit line, applied by the real setup_optimizer, compiled, '
         'then the parameters the file left off enabled through Optimizer.enable_fit and compiled again, one compiled uniform '
-        'prior re-bounded in place and the same file read a second time. distinct non-trivial = distinct '
+        'prior re-bounded in place and the same file read a second time; every 4th block of uniform-class constructor cases hands '
+        'the u values over as NumPy float32 scalars and as one float32 array; scripting route: a real ForwardModel (2-3 '
+        'parameters) and an observation owning 1-2 parameters, a history of 5-14 Optimizer calls (enable_fit / disable_fit / '
+        'set_mode in any accepted spelling / set_boundary / set_factor_boundary / set_prior / compile_params) containing one '
+        'of six motifs in turn (set_prior then set_boundary; explicit prior on one parameter, compile, bounds / mode of another '
+        'changed; LOG / Log spelling; explicit prior on an observation parameter; prior whose space differs from the mode; '
+        'free), ending with compile_params and update_model, judged after every compilation. distinct non-trivial = distinct '
         '(constructor, bound order, magnitude class) resp. (class, keyword set, container, casing) resp. (texts, repeats, '
         'set_bounds, file) resp. (option set, parameters mentioned)')
 ASSUMPTIONS = ['scipy.stats.uniform.ppf(q, loc, scale) = q*scale + loc for 0 <= q <= 1, scale > 0 (validated each run)',
@@ -141,12 +147,14 @@ def ctor_tokens(ctor):
     raise ValueError(k)
 
 
-def observe(p, us, xs):
-    """public observables of a real prior object"""
+def observe(p, us, xs, u_as=None):
+    """public observables of a real prior object; `u_as`: the type the unit-interval values are handed over in (None: Python
+    floats; 'float32': NumPy single-precision scalars — the numbers themselves are then single-precision numbers)"""
     from taurex.core.priors import PriorMode
     lo, hi = p.boundaries()
+    conv = (lambda u: u) if u_as is None else getattr(np, u_as)
     return dict(kind=KINDS.index(type(p).__name__), mode=0 if p.priorMode is PriorMode.LINEAR else 1,
-                lo=float(lo), hi=float(hi), samples=[float(p.sample(u)) for u in us],
+                lo=float(lo), hi=float(hi), samples=[float(p.sample(conv(u))) for u in us],
                 backs=[float(p.prior(x)) for x in xs])
 
 
@@ -240,10 +248,15 @@ def eval_ctor(ctx, case):
     from scipy.special import ndtr
     ctor = case['ctor']
     us = [float(u) for u in case['us']]
+    u_as = case.get('u_as')
+    if u_as is not None:
+        us = [float(getattr(np, u_as)(u)) for u in us]      # the numbers that type holds, handed over in that type
     xs = [float(x) for x in case['xs']]
     zs = [ndtri(u) for u in us]
     z10, z90 = z1090()
     small = dict(type='ctor', ctor=ctor, us=us, xs=xs)
+    if u_as is not None:
+        small['u_as'] = u_as
     try:
         p = build_ctor(ctor)
         err = None
@@ -264,8 +277,15 @@ def eval_ctor(ctx, case):
             ctx.violation('ctor-raises:' + ctor['k'], 'prior constructor raised on arguments inside the quantifier', small,
                           dict(error=err))
         return
-    impl = observe(p, us, xs)
+    impl = observe(p, us, xs, u_as)
     mod = read_eval(d)
+    if u_as is not None:
+        ctx.bucket('ctor:u-handed-over-as-%s:%s' % (u_as, ctor['k']))
+        # the whole vector at once, in the same type: the same values
+        arr = [float(v) for v in np.asarray(p.sample(np.array(us, dtype=getattr(np, u_as))), float).ravel()]
+        if arr != impl['samples']:
+            ctx.violation('sample-array-vs-scalar:' + ctor['k'], 'sample(array of u) differs from sample(u) element by element',
+                          small, dict(array=arr[:4], scalar=impl['samples'][:4]))
     ctx.case(key=key, sample=dict(small, impl_lo=impl['lo'], impl_hi=impl['hi'], impl_s=impl['samples'][:3],
                                   model_s=mod['samples'][:3]), bucket='ctor:' + ctor['k'])
     compare_eval(ctx, 'priors.' + type(p).__name__, impl, mod, small)
@@ -324,7 +344,7 @@ def eval_ctor(ctx, case):
                 break
         # order of the bounds is irrelevant
         rc = dict(ctor, b=[ctor['b'][1], ctor['b'][0]])
-        q = observe(build_ctor(rc), us, xs)
+        q = observe(build_ctor(rc), us, xs, u_as)
         if (q['lo'], q['hi'], q['samples']) != (impl['lo'], impl['hi'], impl['samples']):
             ctx.violation('uniform-order:' + k, 'reversing the bounds changes the prior', small,
                           dict(fwd=[impl['lo'], impl['hi']], rev=[q['lo'], q['hi']]))
@@ -335,8 +355,8 @@ def eval_ctor(ctx, case):
             b2 = b2[::-1]
         p2 = build_ctor(ctor)
         p2.set_bounds(b2)
-        q2 = observe(p2, us, xs)
-        qf = observe(build_ctor(dict(k='loguniform' if is_log else 'uniform', b=b2)), us, xs)
+        q2 = observe(p2, us, xs, u_as)
+        qf = observe(build_ctor(dict(k='loguniform' if is_log else 'uniform', b=b2)), us, xs, u_as)
         ctx.bucket('history:set_bounds')
         if (q2['lo'], q2['hi'], q2['samples'], q2['mode']) != (qf['lo'], qf['hi'], qf['samples'], qf['mode']) \
                 or p2.params() != type(p2)(bounds=b2).params():
@@ -345,7 +365,7 @@ def eval_ctor(ctx, case):
                           dict(new_bounds=b2, used=[q2['lo'], q2['hi'], q2['samples'][:4]],
                                fresh=[qf['lo'], qf['hi'], qf['samples'][:4]]))
         if k in ('loguniform_lin',):
-            q = observe(build_ctor(dict(k='loguniform', b=[math.log10(v) for v in ctor['b']])), us, xs)
+            q = observe(build_ctor(dict(k='loguniform', b=[math.log10(v) for v in ctor['b']])), us, xs, u_as)
             if not (C.close([q['lo'], q['hi']], [impl['lo'], impl['hi']], rel=1e-15)
                     and C.close(q['samples'], impl['samples'], rel=1e-14, abs_=1e-15 * w)):
                 ctx.violation('lin-equivalence:loguniform', 'lin_bounds=b differs from bounds=log10(b)', small,
@@ -1285,6 +1305,263 @@ def eval_file(ctx, case):
 
 
 
+# ----------------------------------------------------------------------------- the scripting route (Optimizer setters)
+MODE_SPELLINGS = {'log': ['log', 'Log', 'LOG', 'lOg'], 'linear': ['linear', 'Linear', 'LINEAR']}
+SESSION_MOTIFS = ['prior-then-boundary', 'explicit-elsewhere-recompile-after-change', 'mode-spelling', 'observation-prior',
+                  'prior-space-differs-from-mode', 'free']
+
+
+def _session_obs(params):
+    """an observation (BaseSpectrum) that owns fitting parameters of its own"""
+    from taurex.spectrum import BaseSpectrum
+
+    class SessObs(BaseSpectrum):
+        def __init__(self):
+            super().__init__('SessObs')
+            for p in params:
+                attr = '_v_' + p['name']
+                setattr(self, attr, 1.5)
+
+                def fget(s, _a=attr):
+                    return getattr(s, _a)
+
+                def fset(s, v, _a=attr):
+                    setattr(s, _a, v)
+                self.add_fittable_param(p['name'], '$%s$' % p['name'], fget, fset, p['mode'], bool(p['fit']), list(p['bounds']))
+
+        def create_binner(self):
+            from taurex.binning import NativeBinner
+            return NativeBinner()
+        spectrum = property(lambda self: np.zeros(3))
+        wavenumberGrid = property(lambda self: np.linspace(1, 2, 3))
+        errorBar = property(lambda self: np.ones(3))
+    return SessObs()
+
+
+def gen_session(rng, k):
+    """a model with 2-3 and an observation with 1-2 declared parameters, and a history of the optimizer's own calls (python
+    scripting): enable_fit / disable_fit / set_mode (any accepted spelling) / set_boundary / set_factor_boundary / set_prior /
+    compile_params / update_model in any order; every history contains one of the motifs in turn and ends with a
+    compilation and a write of a parameter vector"""
+    def pos_bounds():
+        b = [float(10 ** rng.uniform(-6, 1)), float(10 ** rng.uniform(1.5, 7))]
+        return b[::-1] if rng.random() < 0.3 else b
+
+    def decl(name, i):
+        return dict(name=name, route=ROUTES[(k + i) % 3], mode='log' if rng.random() < 0.5 else 'linear',
+                    fit=bool(rng.random() < 0.5), bounds=pos_bounds())
+    mpar = [decl('q%d' % i, i) for i in range(int(rng.integers(2, 4)))]
+    opar = [dict(decl('o%d' % i, i), route='dynamic') for i in range(int(rng.integers(1, 3)))]
+    names = [p['name'] for p in mpar + opar]
+    motif = SESSION_MOTIFS[k % len(SESSION_MOTIFS)]
+
+    def a_prior(space=None):
+        kinds = ['uniform', 'loguniform', 'loguniform_lin', 'gaussian', 'loggaussian']
+        if space == 'log':
+            kinds = ['loguniform', 'loguniform_lin', 'loggaussian']
+        if space == 'linear':
+            kinds = ['uniform', 'gaussian']
+        kk = str(rng.choice(kinds))
+        if kk in ('uniform', 'loguniform'):
+            b = [float(rng.uniform(-8, 0)), float(rng.uniform(0.5, 9))]
+            return dict(k=kk, b=b[::-1] if rng.random() < 0.3 else b)
+        if kk == 'loguniform_lin':
+            return dict(k=kk, b=pos_bounds())
+        c = dict(k=kk, mean=float(rng.uniform(-5, 5)), std=float(10 ** rng.uniform(-2, 1)))
+        if kk == 'loggaussian':
+            c.update(lin_mean=None, lin_std=None)
+        return c
+
+    def rand_op():
+        n = str(rng.choice(names))
+        r = rng.random()
+        if r < 0.2:
+            return ['enable_fit', n]
+        if r < 0.27:
+            return ['disable_fit', n]
+        if r < 0.45:
+            return ['set_mode', n, str(rng.choice(MODE_SPELLINGS[str(rng.choice(['log', 'linear']))]))]
+        if r < 0.62:
+            return ['set_boundary', n, pos_bounds()]
+        if r < 0.7:
+            return ['set_factor_boundary', n, [float(rng.uniform(0.01, 0.9)), float(rng.uniform(1.1, 20))]]
+        if r < 0.85:
+            return ['set_prior', n, a_prior()]
+        return ['compile_params']
+    ops = [rand_op() for _ in range(int(rng.integers(0, 5)))]
+    a = str(rng.choice(names))
+    others = [n for n in names if n != a]
+    b = str(rng.choice(others))
+    mode_of = {p['name']: p['mode'] for p in mpar + opar}
+    if motif == 'prior-then-boundary':
+        ops += [['enable_fit', a], ['set_prior', a, a_prior()], ['set_boundary', a, pos_bounds()]]
+    elif motif == 'explicit-elsewhere-recompile-after-change':
+        change = [['set_boundary', b, pos_bounds()], ['set_mode', b, 'log' if mode_of[b] == 'linear' else 'linear'],
+                  ['set_factor_boundary', b, [0.5, 3.0]]][int(rng.integers(0, 3))]
+        ops += [['enable_fit', a], ['enable_fit', b], ['set_prior', a, a_prior()], ['compile_params'], change]
+    elif motif == 'mode-spelling':
+        ops += [['enable_fit', a], ['set_mode', a, str(rng.choice(['Log', 'LOG', 'lOg']))]]
+    elif motif == 'observation-prior':
+        a = str(rng.choice([p['name'] for p in opar]))
+        ops += [['enable_fit', a], ['set_prior', a, a_prior()]]
+    elif motif == 'prior-space-differs-from-mode':
+        m = str(rng.choice(['log', 'linear']))
+        ops += [['enable_fit', a], ['set_mode', a, m], ['set_prior', a, a_prior('linear' if m == 'log' else 'log')]]
+    ops += [rand_op() for _ in range(int(rng.integers(0, 3)))]
+    if motif != 'free':
+        # (the motif's explicit priors are still in force at the end: a later set_prior would only replace them)
+        ops = ops
+    ops += [['compile_params'], ['update_model', [float(x) for x in rng.uniform(0.1, 3.0, size=len(names))]]]
+    return dict(type='session', host='model', hist=[], params=mpar, obs_params=opar, ops=ops, motif=motif)
+
+
+def eval_session(ctx, case):
+    from taurex.core.priors import Uniform, LogUniform, PriorMode
+    from taurex.optimizer.optimizer import Optimizer
+    mpar = [p for p in case['params'] if p['route'] != 'dynamic'] + [p for p in case['params'] if p['route'] == 'dynamic']
+    opar = list(case['obs_params'])
+    ops = [list(o) for o in case['ops']]
+    us = [float(u) for u in case['us']]
+    xs = [float(x) for x in case['xs']]
+    zs = [ndtri(u) for u in us]
+    z10, z90 = z1090()
+    small = dict(case)
+    try:
+        host = _declared_host(case)()
+        obs = _session_obs(opar)
+        opt = Optimizer('verif', observed=obs, model=host)
+    except Exception as e:      # noqa
+        ctx.malformed_outcome('session:fixture:' + type(e).__name__)
+        return
+    owner = {p['name']: ('model', host) for p in mpar}
+    owner.update({p['name']: ('observation', obs) for p in opar})
+    order = [p['name'] for p in mpar + opar]
+
+    def op_tok(o):
+        if o[0] in ('enable_fit', 'disable_fit'):
+            return '%s %s' % (C.N(0 if o[0] == 'enable_fit' else 1), C.S(o[1]))
+        if o[0] == 'set_mode':
+            return '2 %s %s' % (C.S(o[1]), C.S(o[2]))
+        if o[0] in ('set_boundary', 'set_factor_boundary'):
+            return '%s %s %s %s' % (C.N(3 if o[0] == 'set_boundary' else 4), C.S(o[1]), C.F(o[2][0]), C.F(o[2][1]))
+        if o[0] == 'set_prior':
+            return '5 %s %s' % (C.S(o[1]), ' '.join(ctor_tokens(o[2])))
+        if o[0] == 'compile_params':
+            return '8'
+        return '9 ' + C.L(o[1])
+    ptok = lambda p: ' '.join([C.S(p['name']), C.N(0 if p['mode'] == 'linear' else 1), C.N(1 if p['fit'] else 0),
+                               C.F(p['bounds'][0]), C.F(p['bounds'][1]), C.F(1.5)])
+    # update_model takes a vector as long as the compiled view
+    ncomp = 0
+    explicit = {}
+    impl = []
+    for o in ops:
+        rec = dict(out=0)
+        try:
+            if o[0] == 'set_prior':
+                pr = build_ctor(o[2])
+                opt.set_prior(o[1], pr)
+                explicit[o[1]] = pr
+            elif o[0] == 'compile_params':
+                opt.compile_params()
+                ncomp = len(opt.fitting_parameters)
+                rec.update(rows=[t[0] for t in opt.fitting_parameters], names=list(opt.fit_names),
+                           priors=list(opt.fitting_priors),
+                           tuples={n: owner[n][1].fittingParameters[n] for n in order}, explicit=dict(explicit))
+            elif o[0] == 'update_model':
+                o[1] = list(o[1])[:ncomp]
+                opt.update_model(list(o[1]))
+                rec.update(values=[float(owner[n][1].fittingParameters[n][2]()) for n in order],
+                           rows=[t[0] for t in opt.fitting_parameters], priors=list(opt.fitting_priors))
+            elif o[0] in ('set_boundary', 'set_factor_boundary'):
+                getattr(opt, o[0])(o[1], list(o[2]))
+            elif o[0] == 'set_mode':
+                opt.set_mode(o[1], o[2])
+            else:
+                getattr(opt, o[0])(o[1])
+        except KeyError:
+            rec['out'] = 1
+        except ValueError:
+            rec['out'] = 2
+        except Exception as e:      # noqa
+            ctx.violation('session:raises:' + o[0], 'a call of the optimizer raised %r' % (e,), small, dict(op=o))
+            return
+        impl.append(rec)
+    d = ctx.model().call('c08.session', C.F(z10), C.F(z90), C.L(mpar, ptok), C.L(opar, ptok), C.L(ops, op_tok),
+                         C.L(us), C.L(zs), C.L(xs))
+
+    def read_step():
+        out = d.nat()
+        tag = d.nat()
+        if tag == 1:
+            return dict(out=out, names=d.list(d.str), priors=d.list(lambda: read_eval(d)))
+        if tag == 2:
+            return dict(out=out, values=d.list())
+        return dict(out=out)
+    mod = d.list(read_step)
+    ctx.case(key=('session', case['motif'], tuple(o[0] for o in ops)), bucket='session:motif:' + case['motif'],
+             sample=dict(ops=ops[:6]))
+    ctx.check_eq('number of calls answered by OptimizerSM.step', len(mod), len(impl), small)
+    for i, (o, a, m) in enumerate(zip(ops, impl, mod)):
+        at = dict(small, step=i)
+        ctx.check_eq('outcome of %s vs OptimizerSM.step' % o[0], a['out'], m['out'], at)
+        if a['out'] != 0 or m['out'] != 0:
+            ctx.bucket('session:outcome-%d:%s' % (a['out'], o[0]))
+            if o[0] == 'compile_params':
+                return
+            continue
+        if o[0] == 'set_mode' and o[2] != o[2].lower():
+            ctx.bucket('session:set_mode:spelling-not-lowercase')
+        if o[0] == 'compile_params':
+            ctx.check_eq('fit_names after the history vs OptimizerSM.fitNames', a['names'], m['names'], at)
+            got = [observe(p, us, xs) for p in a['priors']]
+            ctx.check_eq('number of compiled priors vs the model', len(got), len(m['priors']), at)
+            for n, g, mp in zip(a['rows'], got, m['priors']):
+                compare_eval(ctx, 'prior of %s after the history' % n, g, mp, at)
+            # ---- property: a fitted parameter without an explicit prior has the default prior of the mode and bounds its
+            # tuple holds NOW; one given a prior with set_prior is fitted with that prior
+            for n, p, g in zip(a['rows'], a['priors'], got):
+                who = owner[n][0]
+                explicit = a['explicit']         # the priors given with set_prior up to this compilation
+                if n in explicit:
+                    ctx.bucket('session:param:%s:explicit-prior' % who)
+                    if p is not explicit[n] and not (type(p) is type(explicit[n]) and same_prior(g, observe(explicit[n], us, xs))):
+                        ctx.violation('session-prior:explicit:' + who, 'a parameter given a prior with set_prior is not fitted '
+                                      'with that prior (the default of its bounds and mode took its place)', small,
+                                      dict(step=i, param=n, given=type(explicit[n]).__name__ + ' ' + explicit[n].params(),
+                                           got=type(p).__name__ + ' ' + p.params()))
+                        return
+                    continue
+                tup = a['tuples'][n]
+                mode, b = str(tup[4]).lower(), list(tup[6])
+                ctx.bucket('session:param:%s:default-prior' % who)
+                want = observe(LogUniform(lin_bounds=b) if mode == 'log' else Uniform(bounds=b), us, xs)
+                ok = all(g[k_] == want[k_] for k_ in ('kind', 'mode')) and all(
+                    C.close(g[k_], want[k_], rel=1e-13, abs_=1e-300) for k_ in ('lo', 'hi', 'samples', 'backs'))
+                if not ok:
+                    ctx.violation('session-prior:default:' + who, 'the default prior of a fitted parameter does not derive from the '
+                                  'mode and bounds the parameter has now', small,
+                                  dict(step=i, param=n, mode=tup[4], bounds=b, got=type(p).__name__ + ' ' + p.params()))
+                    return
+        if o[0] == 'update_model':
+            ctx.check_close('parameter values after update_model vs OptimizerSM.updateModel', a['values'], m['values'], at,
+                            rel=1e-12, abs_=1e-300)
+            # ---- property: log-space priors hand 10**x to the model, the others x — whatever the parameter's mode
+            for n, p, x in zip(a['rows'], a['priors'], o[1]):
+                who = owner[n][0]
+                is_log = p.priorMode is PriorMode.LOG
+                want = 10 ** x if is_log else x
+                gotv = a['values'][order.index(n)]
+                tmode = str(owner[n][1].fittingParameters[n][4]).lower()
+                ctx.bucket('session:update_model:%s-space prior on a %s-mode parameter' % ('log' if is_log else 'linear', tmode))
+                if not C.close(gotv, want, rel=1e-12):
+                    ctx.violation('session-back:%s-prior:%s-mode:%s' % ('log' if is_log else 'linear', tmode, who),
+                                  'update_model did not hand prior.prior(x) (10**x for a log-space prior, x otherwise) to the '
+                                  'parameter', small, dict(step=i, param=n, x=x, got=gotv, expected=want,
+                                                           prior=type(p).__name__ + ' ' + p.params()))
+                    return
+
+
 # ----------------------------------------------------------------------------- externals
 def validate_externals(ctx):
     import scipy.stats as st
@@ -1417,7 +1694,9 @@ def run(ctx):
                     ctor['mode'] = 'log'
             else:
                 ctor['lin_mean'] = -1.0 if rng.random() < 0.5 else 0.0
-        eval_ctor(ctx, dict(ctor=ctor, us=gen_us(rng), xs=[float(x) for x in rng.uniform(-30, 30, size=3)] + [0.0]))
+        # quota (uniform classes, every 4th case): the unit-interval values handed over as NumPy single-precision numbers
+        u_as = 'float32' if (k // 6) % 4 == 3 and ctor['k'] in ('uniform', 'loguniform', 'loguniform_lin', 'default') else None
+        eval_ctor(ctx, dict(ctor=ctor, us=gen_us(rng), xs=[float(x) for x in rng.uniform(-30, 30, size=3)] + [0.0], u_as=u_as))
     for k in range(ctx.n(2000, 30000)):
         call = gen_call(rng, k)
         text = render(rng, call)
@@ -1487,6 +1766,11 @@ def run(ctx):
         eval_file(ctx, dict(case, us=gen_us(rng, 1), xs=[float(rng.uniform(-20, 20))]))
     malformed(ctx)
     late_plugin_priors(ctx)
+    # the scripting route: the optimizer's own setters in any order (model- and observation-owned parameters), compile_params
+    # and update_model anywhere in the history (after the older streams, whose random draws stay as they were)
+    for k in range(ctx.n(240, 3600)):
+        case = gen_session(rng, k)
+        eval_session(ctx, dict(case, us=gen_us(rng, 1), xs=[float(rng.uniform(-20, 20))]))
 
 
 def replay(ctx, case):
@@ -1505,6 +1789,8 @@ def replay(ctx, case):
         eval_objects(ctx, case)
     elif case.get('type') == 'file':
         eval_file(ctx, case)
+    elif case.get('type') == 'session':
+        eval_session(ctx, case)
     elif case.get('type') == 'declared':
         eval_declared(ctx, case)
     elif case.get('type') == 'text':
